@@ -10,7 +10,8 @@
  * during the teardown: 0 nothing, 1 the first one that runs deregisters the module with the highest index through the
  * public call, 2 it calls m_ctx_deregister() itself - must not break the teardown in progress).
  * UDAUTO / NAUTO (M_CTX_USERDATA_AUTOFREE / M_CTX_NAME_AUTOFREE of the context, the name not being duplicated),
- * UD2AUTO (auto-free user data of the fresh context).
+ * UD2AUTO (auto-free user data of the fresh context), TICK (period in ns of a context tick source, 0 = none; a
+ * symbolic period forks on "ns != 0" inside m_ctx_set_tick and does not finish).
  * Symbolic: errno left by callbacks, module user data identity, quit code (LOOPED). */
 #include "vf.h"
 #include "vf_os.h"
@@ -45,6 +46,9 @@
 #endif
 #ifndef CB
 #define CB 0
+#endif
+#ifndef TICK
+#define TICK 0
 #endif
 #ifndef UDAUTO
 #define UDAUTO 0
@@ -106,6 +110,9 @@ int vf_main(void) {
                       | (name_auto ? M_CTX_NAME_AUTOFREE : 0);
     r = m_ctx_register(cname, cfl, cud); VF_CHECK(r == 0, "a thread without a context registers one");
     VF_CHECK(m_ctx_len() == 0 && m_ctx_userdata() == cud, "fresh context is empty and carries the user data");
+#if TICK
+    { uint64_t ns = TICK; r = m_ctx_set_tick(ns); VF_CHECK(r == 0, "context tick configured"); }
+#endif
 
     _Bool which_ud = nondet_bool();
     for (int i = 0; i < NMOD; i++) {
